@@ -20,7 +20,14 @@ PLAIN = {}
 
 
 def crate_configs(tier):
-    return [{"name": "c16", "features": ("derive", "phf")}]
+    return [{"name": "c16", "features": ("derive", "phf")}, {"name": "c16probe", "kind": "genprobe"}]
+
+
+def query_in_config(cfg, kind, args):
+    return (kind == "struct") == (cfg.get("kind") == "genprobe")
+
+
+probe_command = S.struct_probe_command
 
 
 def regression():
@@ -69,8 +76,15 @@ def build_corpus(tier, rng):
         it = G.string_enum(rng, allow_fields=False, allow_dw=False, generics=False)
         cands.append(("random", it))
     infos = G.classify(ID, [it for _, it in cands])
+    twins = []
+    for _, it in cands:
+        tw = copy.deepcopy(it)
+        tw.metas.append(EM("phf"))
+        tw.groups = None
+        twins.append(tw)
+    reals = G.real_structure(ID, [it for _, it in cands] + twins)
     rejected = 0
-    for (fam, it), info in zip(cands, infos):
+    for ci, ((fam, it), info) in enumerate(zip(cands, infos)):
         if fam == "overlap":
             if info is None:
                 continue
@@ -78,13 +92,22 @@ def build_corpus(tier, rng):
             rejected += 1
             continue
         k = c.add_def(it, family=fam, derives=["EnumString"], info=info, twin=None)
-        twin = copy.deepcopy(it)
-        twin.metas.append(EM("phf"))
-        twin.groups = None
+        twin = twins[ci]
         k2 = c.add_def(twin, family=fam, derives=["EnumString"], info=info, twin=k)
+        seen = set()
         for s, note in G.fromstr_inputs(it, info, rng, flipcap=(256 if thorough else 16), nrandom=(30 if thorough else 6)):
             c.add_q(k, "fromstr", [S.hx(s)], note=note)
             c.add_q(k2, "fromstr", [S.hx(s)], note=note)
+            seen.add(s)
+        # guided search: the literals of BOTH real expansions go to both twins
+        for lit in G.literals_of_structure(reals[ci]) + G.literals_of_structure(reals[len(cands) + ci]):
+            for s_ in (lit, lit.lower(), lit.upper(), lit.swapcase()):
+                if s_ not in seen:
+                    seen.add(s_)
+                    c.add_q(k, "fromstr", [S.hx(s_)], note="near-real-literal")
+                    c.add_q(k2, "fromstr", [S.hx(s_)], note="near-real-literal")
+        c.add_q(k, "struct", ["EnumString"], note="structure")
+        c.add_q(k2, "struct", ["EnumString"], note="structure")
     c.rejected = rejected
     return c
 
@@ -94,6 +117,8 @@ render_def = c01.render_def
 
 def compare(corpus, k, kind, args, note, iobs, mobs, cfg):
     ok, nt, detail = S.compare_strings(corpus, k, kind, args, note, iobs, mobs, cfg)
+    if kind == "struct":
+        return ok, nt, detail
     twin = corpus.meta[k].get("twin")
     if twin is None:
         PLAIN[(k, args[0])] = (iobs, mobs)
